@@ -722,6 +722,7 @@ func helperShapes(files map[string]*ast.File, fn func(file, recv, name string) *
 	}
 	judgeRel = judgeOf(fn)
 	fallbackRel = fallbackOf(fn)
+	entryPaths = entryPathsOf(fn)
 	if h := fn("class.go", "*ClassMethod", "Call"); h != nil {
 		if len(h.Body.List) == 0 || !strings.Contains(nodeText(h.Body.List[0]), "cmc.SelfClass = lexicalClassOfMethod(ctx.GetVM(), cmc.Class, m)") {
 			note("ClassMethod.Call: the lexical class is not recorded by the first statement")
@@ -732,6 +733,88 @@ func helperShapes(files map[string]*ast.File, fn func(file, recv, name string) *
 			note("LambdaExpression.Call: the closure context does not inherit SelfClass")
 		}
 	}
+}
+
+// entryPaths (round 8): the ways a body written in a class comes to run, and whether each records the class of
+// the code (`SelfClass`) before a statement of that body can run.
+//
+//	ClassMethod.Call: every top-level statement that can leave the function (contains a `return` outside a
+//	function literal) is an exit path — named after what it tests: `m.IsGenerator` → generator (the body runs later
+//	in this very context), `maxCallDepth` → depthLimit, the `range m.Body` loop and everything after it → body —
+//	and it records iff the statement `cmc.SelfClass = lexicalClassOfMethod(…)` is a top-level statement BEFORE it.
+//	LambdaExpression.Call / FunctionStatement.Call: closure / functionInMethod record iff the context they build
+//	inherits `defineClassCtx.SelfClass`.
+type entryPath struct {
+	name    string
+	records bool
+}
+
+var entryPaths []entryPath
+
+func entryPathsOf(fn func(file, recv, name string) *ast.FuncDecl) []entryPath {
+	var out []entryPath
+	add := func(name string, rec bool) {
+		for i := range out {
+			if out[i].name == name {
+				out[i].records = out[i].records && rec
+				return
+			}
+		}
+		out = append(out, entryPath{name, rec})
+	}
+	hasReturn := func(n ast.Node) bool {
+		found := false
+		ast.Inspect(n, func(x ast.Node) bool {
+			switch x.(type) {
+			case *ast.FuncLit:
+				return false
+			case *ast.ReturnStmt:
+				found = true
+			}
+			return !found
+		})
+		return found
+	}
+	if h := fn("class.go", "*ClassMethod", "Call"); h != nil {
+		recAt, bodyAt := -1, -1
+		for i, st := range h.Body.List {
+			txt := nodeText(st)
+			if recAt < 0 && strings.Contains(txt, "cmc.SelfClass = lexicalClassOfMethod(") && !hasReturn(st) {
+				recAt = i
+			}
+			if bodyAt < 0 && strings.Contains(txt, "range m.Body") {
+				bodyAt = i
+			}
+		}
+		if bodyAt < 0 {
+			note("ClassMethod.Call: the body loop `range m.Body` was not found")
+		}
+		for i, st := range h.Body.List {
+			if !hasReturn(st) {
+				continue
+			}
+			txt := nodeText(st)
+			name := fmt.Sprintf("exit%d", i)
+			switch {
+			case bodyAt >= 0 && i >= bodyAt:
+				name = "body"
+			case strings.Contains(txt, "m.IsGenerator"):
+				name = "generator"
+			case strings.Contains(txt, "maxCallDepth"):
+				name = "depthLimit"
+			}
+			add(name, recAt >= 0 && recAt < i)
+		}
+	} else {
+		note("ClassMethod.Call not found")
+	}
+	if h := fn("lambda.go", "*LambdaExpression", "Call"); h != nil {
+		add("closure", strings.Contains(nodeText(h.Body), "cmc.SelfClass = defineClassCtx.SelfClass"))
+	}
+	if h := fn("function.go", "*FunctionStatement", "Call"); h != nil {
+		add("functionInMethod", strings.Contains(nodeText(h.Body), "cmc.SelfClass = defineClassCtx.SelfClass"))
+	}
+	return out
 }
 
 // fallbackRel: which relation between the receiver's class and the scope class the last statement of
@@ -1785,7 +1868,7 @@ func main() {
 
 	// ---- emit
 	var sb strings.Builder
-	sb.WriteString("import Model.Access\nimport Model.Types\nimport Model.Inst\nimport Model.AccessDecl\n")
+	sb.WriteString("import Model.Access\nimport Model.Types\nimport Model.Inst\nimport Model.AccessDecl\nimport Model.ScopeEntry\n")
 	sb.WriteString("/-! Which modifier test each arm of each access node performs, and what each typed boundary does with the\ndeclared type (see `extract/c07/main.go` for the syntactic shapes that are recognised). -/\n")
 	sb.WriteString("namespace Generated.C07Access\nopen Model.Access Model.Types\n\n")
 	sb.WriteString("def table : Table := fun p r =>\n  match p, r with\n")
@@ -1814,6 +1897,14 @@ func main() {
 	sb.WriteString("]\n")
 	fmt.Fprintf(&sb, "\n/-- which relation between the receiver's class and the scope class `canAccessDeclared` asks for before it\ngrants the scope class's own same-named member -/\ndef fallbackRel : Model.AccessDecl.Fallback := %s\n", fallbackRel)
 	fmt.Fprintf(&sb, "\n/-- which class `canAccessDeclared` hands to `canAccessMember` for a protected member: the nearest declaration\nthe walk stopped at, or a class further up -/\ndef judgeRel : Model.AccessDecl.Judge := %s\n", judgeRel)
+	sb.WriteString("\n/-- the ways a body written in a class comes to run (exits of `ClassMethod.Call`, closure, function declared in a\nmethod) and whether each records the class of the code before a statement of the body can run -/\ndef entryPaths : List Model.ScopeEntry.Entry := [")
+	for i, e := range entryPaths {
+		if i > 0 {
+			sb.WriteString(", ")
+		}
+		fmt.Fprintf(&sb, "⟨%s, %v⟩", ex.LeanString(e.name), e.records)
+	}
+	sb.WriteString("]\n")
 	fmt.Fprintf(&sb, "\n/-- does `new` run the abstract test first and the completeness validation on every call -/\ndef instGlue : Model.Inst.Glue := ⟨%v, %v⟩\n", abstractFirst, validateEvery)
 	sort.Strings(notes)
 	{
